@@ -130,6 +130,12 @@ def classify(f):
                 if a["op"] == "rename" and a["res"] in ("panic", "noreturn") and b["op"] in ("removeall", "remove", "rename"):
                     return "C07-orefafs-rename-panics-when-parent-vanishes"
         return None
+    if kind == "tempdup":
+        # the same temp name in two incarnations of a directory that was removed / renamed meanwhile
+        for a, b in cross_pairs(calls):
+            if a["op"] in ("createtemp", "mkdirtemp") and p_create_in_detached(a, b, strict=False):
+                return "C06-%s-create-in-detached-dir" % fs
+        return None
     if kind != "nonlin":
         return None
     if fs == "orefafs":
@@ -154,10 +160,11 @@ def classify_deadlock(f):
         return None     # a single thread blocked on its own lock: a sequential C07 defect, never a known finding here
     ops = {c["op"] for t in f["calls"] for c in t}
     if fs == "memfs":
-        if "rename" in ops and all(len(h) >= 1 for _, _, h in waits):
+        # every blocked thread holds a lock, and a Rename that holds its old parent is one of them
+        if all(len(h) >= 1 for _, _, h in waits):
             ren = [c for t in f["calls"] for c in t if c["op"] == "rename" and c["res"] == "noreturn"]
-            if len(ren) >= 2:
-                return "C07-memfs-rename-rename-lock-order"
+            if ren:
+                return "C07-memfs-rename-lock-order"
         return None
     # OrefaFS: lock 0 is the index lock
     idx_waiter = [w for w in waits if w[1] == "W0" or w[1] == "R0"]
@@ -166,6 +173,6 @@ def classify_deadlock(f):
         if ops & {"rename", "link"}:
             return "C07-orefafs-index-vs-node-lock-order"
         return None
-    if not idx_waiter and not idx_holder and ops & {"rename", "link"}:
+    if not idx_waiter and ops & {"rename", "link"}:
         return "C07-orefafs-node-lock-order"
     return None
